@@ -1,5 +1,6 @@
 import Cqos.Props.C14
 import Cqos.Tactic
+import Cqos.Lemmas.SortDesc
 /-
   Property C18 — handler-quantity helpers agree with their definition; non-fatal ⇒ accepted.
 
@@ -222,9 +223,43 @@ theorem c18_accepted_rate (ps : List Nat) (q : Nat) (hps : ps ≠ []) (hnf : isN
     ∃ s, prepareV2 rate ps q = .ok (sortDesc ps, s) :=
   ⟨_, c18_accepted ps rate q hps (by simpa [rate] using C14.c14_rate_total _ _ q [] (sortDesc_ne_nil ps hps)) hnf⟩
 
+/-- **C18 (closed form for Fair).** For distinct priorities, `IsNonFatalConfig(ps, Fair, q)` is
+    true exactly when there are at least as many handlers as priorities — the documented
+    minimum for the fair divider, for every priority list and every quantity. -/
+theorem c18_fair_nonfatal_iff (ps : List Nat) (q : Nat) (hnd : ps.Nodup) (hps : ps ≠ []) :
+    isNonFatal ps fair q = true ↔ ps.length ≤ q := by
+  have hperm := sortDesc_perm ps
+  have hlen : (sortDesc ps).length = ps.length := hperm.length_eq
+  have hsnd : (sortDesc ps).Nodup := hperm.nodup_iff.mpr hnd
+  have hn : 0 < ps.length := List.length_pos_iff.mpr hps
+  rw [c18_nonfatal_iff]
+  constructor
+  · intro h
+    have hj : ps.length - 1 < (sortDesc ps).length := by omega
+    have hmem : (sortDesc ps)[ps.length - 1] ∈ sortDesc ps := List.getElem_mem hj
+    have h1 := h (sortDesc ps) (sortDesc_ne_nil ps hps) (List.Sublist.refl _) _ hmem
+    rw [C14.c14_fair_shape (sortDesc ps) q [] hsnd (ps.length - 1) hj, hlen] at h1
+    have hml := Nat.mod_lt q hn
+    have hnot : ¬ ps.length - 1 < q % ps.length := by omega
+    rw [if_neg hnot] at h1
+    have hg : Dist.get [] ((sortDesc ps)[ps.length - 1]) = 0 := rfl
+    rw [hg] at h1
+    have hq : 1 ≤ q / ps.length := by omega
+    have := (Nat.le_div_iff_mul_le hn).1 hq
+    omega
+  · intro hq c hne hsub p hp
+    have hcn : c.Nodup := hsub.nodup hsnd
+    have hcl : c.length ≤ ps.length := by have := hsub.length_le; omega
+    have hc0 : 0 < c.length := List.length_pos_iff.mpr hne
+    obtain ⟨j, hj, rfl⟩ := List.mem_iff_getElem.1 hp
+    rw [C14.c14_fair_shape c q [] hcn j hj]
+    have hd : 1 ≤ q / c.length := (Nat.le_div_iff_mul_le hc0).2 (by omega)
+    omega
+
 /-! Non-vacuity. -/
 example : genCombinations [3, 2, 1] [] = [[3], [3, 2], [2], [3, 1], [3, 2, 1], [2, 1], [1]] := by decide
 example : isNonFatal [1, 3, 2] fair 3 = true ∧ isNonFatal [1, 3, 2] fair 2 = false := by decide
 example : pickUpMin (isNonFatal [1, 3, 2] fair) 10 = 3 := by decide
+example : isNonFatal [1, 3, 2] fair 3 = true := (c18_fair_nonfatal_iff [1, 3, 2] 3 (by decide) (by decide)).2 (by decide)
 
 end Cqos.C18
